@@ -310,6 +310,12 @@ func (c *client) do(req *http.Request, okStatuses ...int) (*http.Response, error
 	if err != nil {
 		return nil, fmt.Errorf("cannot do HTTP request: %w", err)
 	}
+	if resp.Request == nil {
+		// A custom transport doesn't have to fill this in
+		// but we rely on it later (for the request method
+		// and for resolving relative Location and Link headers).
+		resp.Request = req
+	}
 	if debug {
 		buf.Reset()
 		fmt.Fprintf(&buf, "} -> %s {\n", resp.Status)
